@@ -54,6 +54,7 @@ package csi
 // position for each member (see internal.OverlappingBinsFor for the scheme).
 //@ func reg2bins
 //@   mode bv
+//@   anymode
 //@   props C16, C04
 //@   terminates
 //@   requires cGeom(minShift, depth) && cValid(beg, end, minShift, depth)
@@ -190,3 +191,60 @@ package csi
 //@   ensures[C15] @spanbegin placed ==> i.refs[recRefID(r)].stats.Chunk.Begin ==
 //@       ite(recRefID(r) == old(len(i.refs)) - 1 && old(i.refs[recRefID(r)].stats) != nil, old(i.refs[recRefID(r)].stats.Chunk.Begin), c.Begin)
 //@   ensures[C15] @unplaced !placed ==> (i.unmapped != nil && *i.unmapped == ite(old(i.unmapped) == nil, 0, old(*i.unmapped)) + 1)
+
+// Index.Chunks (C04): the query of a CSI index whose bins are in bin order.
+// Every chunk of every bin that overlaps the query is covered by a returned
+// chunk unless it ends at or before the bin's left offset (the offset of the
+// first record that overlaps the bin). The result goes through sort.Sort (a
+// permutation that puts the chunks in begin order) and the adjacent merge
+// strategy of bgzf/index (proved there to cover its input).
+//@ spec func cvo(o bgzf.Offset) int64 = o.File*65536 + int64(o.Block)
+//@ spec func cOkOff(o bgzf.Offset) bool = 0 <= o.File && o.File < 140737488355328
+//@ spec func cCovers(c bgzf.Chunk, x bgzf.Chunk) bool = cvo(c.Begin) <= cvo(x.Begin) && cvo(x.End) <= cvo(c.End)
+//@ spec func cBinsOK(bins []bin) bool = len(bins) <= 65536 &&
+//@     (forall a in 0..len(bins) :: forall b in 0..len(bins) :: (a < b ==> bins[a].bin < bins[b].bin)) &&
+//@     (forall a in 0..len(bins) :: (cOkOff(bins[a].left) && len(bins[a].chunks) <= 1048576)) &&
+//@     (forall a in 0..len(bins) :: forall k in 0..len(bins[a].chunks) ::
+//@         (cOkOff(bins[a].chunks[k].Begin) && cOkOff(bins[a].chunks[k].End) && cvo(bins[a].chunks[k].Begin) <= cvo(bins[a].chunks[k].End)))
+//@ func Index.sort
+//@   inline
+//@ func Index.Chunks
+//@   mode int
+//@   props C04
+//@   returns separately
+//@   merges named
+//@   requires i != nil && i.isSorted && cGeom(i.minShift, i.depth) && cValid(int64(beg), int64(end), i.minShift, i.depth)
+//@   requires (0 <= rid && rid < len(i.refs)) ==> cBinsOK(i.refs[rid].bins)
+//@   ghost w map[int]int
+//@   ghost done map[int]bool
+//@   macro got(cc int, k int) bool = 0 <= w[cc * 1048576 + k] && w[cc * 1048576 + k] < len(chunks) && chunks[w[cc * 1048576 + k]] == ref.bins[cc].chunks[k]
+//@   macro want(cc int, k int) bool = cvo(ref.bins[cc].chunks[k].End) > cvo(ref.bins[cc].left)
+//@   at append#0 ghost w[c * 1048576 + rangeindex1 + 1] = len(dst); done[c * 1048576 + rangeindex1 + 1] = true
+//@   loop 0 invariant @own chunks.off == 0 && (cap(chunks) == 0 || fresh(chunks))
+//@   loop 0 invariant @done forall cc in 0..len(ref.bins) :: forall k in 0..len(ref.bins[cc].chunks) :: done[cc * 1048576 + k] ==> got(cc, k)
+//@   loop 0 invariant @wf forall m in 0..len(chunks) :: (cOkOff(chunks[m].Begin) && cOkOff(chunks[m].End) && cvo(chunks[m].Begin) <= cvo(chunks[m].End))
+//@   loop 0 invariant @bins forall t in 0..rangeindex + 1 :: forall cc in 0..len(ref.bins) :: forall k in 0..len(ref.bins[cc].chunks) ::
+//@       (ref.bins[cc].bin == uint32(rangeslice[t]) && want(cc, k)) ==> done[cc * 1048576 + k]
+//@   loop 1 invariant @own chunks.off == 0 && (cap(chunks) == 0 || fresh(chunks))
+//@   loop 1 invariant @done forall cc in 0..len(ref.bins) :: forall k in 0..len(ref.bins[cc].chunks) :: done[cc * 1048576 + k] ==> got(cc, k)
+//@   loop 1 invariant @wf forall m in 0..len(chunks) :: (cOkOff(chunks[m].Begin) && cOkOff(chunks[m].End) && cvo(chunks[m].Begin) <= cvo(chunks[m].End))
+//@   loop 1 invariant @bins forall t in 0..rangeindex0 + 1 :: forall cc in 0..len(ref.bins) :: forall k in 0..len(ref.bins[cc].chunks) ::
+//@       (ref.bins[cc].bin == uint32(rangeslice0[t]) && want(cc, k)) ==> done[cc * 1048576 + k]
+//@   loop 1 invariant @chunks forall k in 0..rangeindex + 1 :: want(c, k) ==> done[c * 1048576 + k]
+//@   at stmt "if !sort.IsSorted(byBeginOffset(chunks)) {" assert forall cc in 0..len(ref.bins) :: forall k in 0..len(ref.bins[cc].chunks) ::
+//@       (cIsBin(ref.bins[cc].bin, i.depth) && cOverlaps(ref.bins[cc].bin, int64(beg), int64(end), i.minShift, i.depth) && want(cc, k)) ==> done[cc * 1048576 + k]
+//@   at stmt "if !sort.IsSorted(byBeginOffset(chunks)) {" assert forall cc in 0..len(ref.bins) :: forall k in 0..len(ref.bins[cc].chunks) ::
+//@       (cIsBin(ref.bins[cc].bin, i.depth) && cOverlaps(ref.bins[cc].bin, int64(beg), int64(end), i.minShift, i.depth) && want(cc, k)) ==> got(cc, k)
+//@   at stmt "sort.Sort(byBeginOffset(chunks))" assert forall cc in 0..len(ref.bins) :: forall k in 0..len(ref.bins[cc].chunks) ::
+//@       (cIsBin(ref.bins[cc].bin, i.depth) && cOverlaps(ref.bins[cc].bin, int64(beg), int64(end), i.minShift, i.depth) && want(cc, k)) ==>
+//@       exists m in 0..len(chunks) :: chunks[m] == ref.bins[cc].chunks[k]
+//@   at before stmt "return adjacent(chunks)" assert forall cc in 0..len(ref.bins) :: forall k in 0..len(ref.bins[cc].chunks) ::
+//@       (cIsBin(ref.bins[cc].bin, i.depth) && cOverlaps(ref.bins[cc].bin, int64(beg), int64(end), i.minShift, i.depth) && want(cc, k)) ==>
+//@       exists m in 0..len(chunks) :: chunks[m] == ref.bins[cc].chunks[k]
+//@   at stmt "return adjacent(chunks)" assert forall cc in 0..len(ref.bins) :: forall k in 0..len(ref.bins[cc].chunks) ::
+//@       (cIsBin(ref.bins[cc].bin, i.depth) && cOverlaps(ref.bins[cc].bin, int64(beg), int64(end), i.minShift, i.depth) && want(cc, k)) ==>
+//@       exists m in 0..len(ret) :: cCovers(ret[m], ref.bins[cc].chunks[k])
+//@   ensures[C04] @complete (0 <= rid && rid < len(i.refs)) ==> (forall cc in 0..len(i.refs[rid].bins) :: forall k in 0..len(i.refs[rid].bins[cc].chunks) ::
+//@       (cIsBin(i.refs[rid].bins[cc].bin, i.depth) && cOverlaps(i.refs[rid].bins[cc].bin, int64(beg), int64(end), i.minShift, i.depth) &&
+//@        cvo(i.refs[rid].bins[cc].chunks[k].End) > cvo(i.refs[rid].bins[cc].left)) ==>
+//@       exists m in 0..len(result) :: cCovers(result[m], i.refs[rid].bins[cc].chunks[k]))
